@@ -1,19 +1,23 @@
 #!/bin/bash
-# Applies each behaviour-preserving refactoring to a scratch copy of /repo and runs ALL quick checks: any VIOLATION is a false alarm.
+# Applies each behaviour-preserving refactoring to a scratch copy of /repo and runs ALL quick checks:
+# any VIOLATION is a false alarm.  Usage: tools/run_refactors.sh [dir] ; PAR=<n> refactors in parallel.
 cd /verif
 DIR=${1:-/verif/refactors}
-for d in $DIR/*/; do
-  id=$(basename $d)
+one() {
+  d=$1; id=$(basename $d)
   S=$(mktemp -d /tmp/refrun.XXXXXX)
   rsync -a --exclude target --exclude .git /repo/ $S/
-  if ! (cd $S && patch -p1 -s --no-backup-if-mismatch < $d/patch.diff) >/dev/null 2>&1; then echo "$id PATCH-FAILED"; rm -rf $S; continue; fi
-  res=""
+  if ! (cd $S && patch -p1 -s --no-backup-if-mismatch < $d/patch.diff) >/dev/null 2>&1; then echo "$id PATCH-FAILED"; rm -rf $S; return; fi
+  res=""; detail=""
   for P in C02 C04 C05 C06 C07 C08 C09 C10 C11 C13 C15 C16 C17 C18 C19 C20; do
-    out=$(CRRL_REPO=$S ./check $P 2>&1)
+    out=$(CRRL_REPO=$S CRRL_EVIDENCE_DIR=$S/evidence ./check $P 2>&1)
     nv=$(echo "$out" | grep -c "^VIOLATION")
-    if [ "$nv" != "0" ]; then res="$res $P:$nv"; echo "$out" | grep -A3 "^VIOLATION" | grep -v "^--\|^VIOLATION" | cut -c1-300 | head -6 | sed "s/^/    [$id $P] /"; fi
+    if [ "$nv" != "0" ]; then res="$res $P:$nv"; detail="$detail$(echo "$out" | grep -A3 "^VIOLATION" | grep -v "^--\|^VIOLATION\|rule=\|path:" | cut -c1-300 | head -3 | sed "s/^/    [$id $P] /")
+"; fi
     if echo "$out" | grep -q "Traceback"; then res="$res $P:CRASH"; fi
   done
-  echo "$id ->${res:- clean}"
+  echo "$detail$id ->${res:- clean}"
   rm -rf $S
-done
+}
+export -f one
+ls -d $DIR/*/ | xargs -P ${PAR:-4} -I{} bash -c 'one {}'
